@@ -32,8 +32,9 @@ META = {
             "classes the position rendering equals the expected layout (line number, line text, marker under the column, tabs kept) and the span rendering "
             "shows line number, line text, marker column and the last line met (Spec.span_shows). The full statement C10_statement is refuted "
             "(C10_statement_refuted, C10_K1_refuted, C10_span_refuted: four witnesses K1..K4, replayed on the real code every run and printed as KNOWN-FINDING). "
-            "The theorem is proved for both models of Error::new_from_span (flag fx: as shipped / with fixes/C10-1-continued-line-visualize.patch, chosen by "
-            "probing the tree); with the patch the class K2 is empty (C10_K2_empty_when_patched) and K1, K3, K4 remain (C10_span_refuted_patched).",
+            "The theorem is proved for all four models of Error::new_from_span (flags fix_continued / fix_eoi_line = with fixes/C10-1-continued-line-visualize.patch / "
+            "fixes/C10-2-empty-span-at-end-line.patch, chosen by probing the tree); a repaired class is empty (C10_K2_empty_when_patched, C10_K4_empty_when_patched, "
+            "C10_known_classes_shrink) and the unrepaired ones remain refuted (C10_span_refuted_patched: K1 and K3 with both patches).",
     "note": "Trusted: Coq kernel; extraction (ExtrOcamlBasic only); harness/runner; str/char/Vec/partition_point/format! width semantics modelled by "
             "documented meaning; CustomError message only (ParsingError message composition belongs to C08); display width of wide chars out of scope.",
     "design_ref": "DESIGN.md section 3, C10",
@@ -42,15 +43,18 @@ META = {
 }
 
 
-FX = "fx=0"   # model flag handed to the runner; set by probe() in run()
+FX = "fx=00"   # model flags handed to the runner (<fix_continued><fix_eoi_line>); set by probe() in run()
 
 
 def probe(hbin):
-    """Which Error::new_from_span is in the tree: as shipped (0) or with fixes/C10-1-continued-line-visualize.patch (1)?
-    Decided by running the K2 witness on the real code."""
+    """Which Error::new_from_span is in the tree?  fix_continued: with fixes/C10-1-continued-line-visualize.patch;
+    fix_eoi_line: with fixes/C10-2-empty-span-at-end-line.patch.  Decided by running the K2 and K4 witnesses on the real code."""
     rc, out = sh("%s probe" % hbin, timeout=60)
-    m = re.search(r"fix_continued=(\d)", out)
-    return int(m.group(1)) if m else 0
+    flags = {}
+    for k in ("fix_continued", "fix_eoi_line"):
+        m = re.search(k + r"=(\d)", out)
+        flags[k] = int(m.group(1)) if m else 0
+    return flags
 
 
 def run_cases(hbin, runner, cmds, timeout=3000):
@@ -133,10 +137,11 @@ def run(tier, seed, replay=None):
         return res.finish()
     hbin = os.path.join(bdir, "c10")
     global FX
-    fixed_continued = probe(hbin)
-    FX = "fx=%d" % fixed_continued
-    log("C10: implementation state (probe): Error::new_from_span continued line %s -> model flag %s" %
-        ("repaired (C10-1 patch)" if fixed_continued else "as shipped", FX))
+    flags = probe(hbin)
+    FX = "fx=%d%d" % (flags["fix_continued"], flags["fix_eoi_line"])
+    log("C10: implementation state (probe): Error::new_from_span continued line %s, empty span at end of input %s -> model flags %s" %
+        ("repaired (C10-1 patch)" if flags["fix_continued"] else "as shipped",
+         "repaired (C10-2 patch)" if flags["fix_eoi_line"] else "as shipped", FX))
 
     if replay:
         case = json.load(open(replay)).get("case", "")
@@ -232,7 +237,7 @@ def run(tier, seed, replay=None):
         "mismatches": len(mism),
         "known_class_cases": stats.get("known_class", 0),
         "known_witnesses_reproduced": reproduced,
-        "model_flags": {"fix_continued": fixed_continued},
+        "model_flags": flags,
     })
     res.assumptions = ["error variant CustomError with a fixed message (and with_path on position errors); ParsingError message text is C08's",
                        "Pair::line_col exercised through PairsBuilder (whole-input index) and through pest::state (index truncated at the last token)",
